@@ -38,10 +38,9 @@ def is_some(en):
 
 def payload(E, en, vi, k=0, ty=None, mem=None):
     pl = en.vs.get(vi)
-    if pl is None or len(pl) <= k:
-        if en.base is not None and ty is not None:
-            return E.sym('%s.v%d.%d' % (en.base, vi, k), ty, mem)
-        raise Unsupported('payload of %s variant %d unknown' % (en.name, vi))
+    if pl is None or len(pl) <= k or pl[k] is None:
+        # same symbol names as a direct MIR downcast read (Engine.en_payload)
+        return E.en_payload(en, E.variant_name(en.name, vi), vi, k, ty, mem, 'model')
     return pl[k]
 
 
@@ -567,6 +566,18 @@ def install(E):
         return B(n == 0)
     reg(r'^core::slice::<impl \[.*\]>::(len|is_empty)$', h_len)
     reg(r'^(?:std::vec::|alloc::vec::)?Vec::<.*>::(len|is_empty)$', h_len)
+
+    def h_first_last(E, m, func, argv, guard, mem, dty, caller):
+        """<[T]>::first / last -> Option<&T> (prefix sequences only)"""
+        r, s = seq_ref(E, argv[0], mem, guard)
+        if isinstance(s, Seq) and not s.prefix:
+            return NotImplemented
+        n = seq_len(s)
+        idx = 0 if m.group(1) == 'first' else n - 1
+        if isinstance(n, int) and n == 0:
+            return En('Option', 0, {})
+        return En('Option', If(zint(n) > 0, 1, 0) if not isinstance(n, int) else 1, {1: [Ref(r.cell, r.path + (('i', idx),))]})
+    reg(r'^core::slice::<impl \[.*\]>::(first|last)$', h_first_last)
 
     def h_vec_deref(E, m, func, argv, guard, mem, dty, caller):
         r, s = seq_ref(E, argv[0], mem, guard)
